@@ -31,6 +31,8 @@ pub struct MkSpec {
     pub backup_sector: u32,
     pub root_cluster: u32,
     pub volume_id: u32,
+    /// BPB hidden-sectors field (sectors in front of the volume on the medium; no meaning inside the volume)
+    pub hidden: u32,
 }
 
 impl MkSpec {
@@ -63,6 +65,7 @@ impl MkSpec {
             backup_sector: 6,
             root_cluster: 2,
             volume_id: 0xB01D_FACE,
+            hidden: 0,
         }
     }
     pub fn eoc_low(&self) -> u32 {
@@ -131,6 +134,7 @@ impl Builder {
             b[21] = s.media;
             put16(b, 24, 63);
             put16(b, 26, 255);
+            put32(b, 28, s.hidden);
             if s.width == 32 {
                 put32(b, 36, spf as u32);
                 put16(b, 40, s.ext_flags);
